@@ -1,4 +1,5 @@
 import HapModel.Model.Exec
+import HapModel.Model.SimInv
 /-!
 # C01 — Simulated local ancestry is inherited unchanged from the parental haplotypes
 
@@ -67,6 +68,68 @@ theorem source_individual (pop : Nat) (hp : pop ≠ 0) (chromOf : Nat → Nat) (
     (prev : Array (Array Seg)) (cs : List Copy) :
     execP pop chromOf haps prev cs = .ok (cs.map (fun c => ⟨pop, chromOf c.ci, c.en, c.cm⟩)) :=
   execP_source pop hp chromOf haps prev cs
+
+/-- one `get_segment` call on a well-formed parent never fails and delivers a strictly (chromosome, end)-sorted
+    piece that lies inside the copied interval and is closed exactly at its end -/
+theorem copy_from_wf_parent (n : Nat) (chromOf : Nat → Nat) (prev : Array (Array Seg)) (hapIdx : Nat)
+    (segs : Array Seg) (hprev : prev[hapIdx]? = some segs) (hwf : ParentWF n chromOf segs)
+    (c : Copy) (hci : c.ci < n) (hse : c.st ≤ c.en) (hen : c.en ≤ MAX) :
+    ∃ o, getSegment 0 hapIdx (chromOf c.ci) c.st c.en c.cm prev = .ok o ∧ CopyOut chromOf c o :=
+  copyOut_of_getSegment n chromOf prev hapIdx segs hprev hwf c hci hse hen
+
+/-- **every simulated haplotype is again a well-formed parent**: for an admixed individual with two well-formed
+    parental haplotypes, and for a source individual unconditionally, `_simulate`'s concatenation of its
+    `get_segment` calls succeeds and is strictly sorted and complete on every chromosome -/
+theorem sample_wf (n : Nat) (chromOf : Nat → Nat) (hmono : ∀ a b, a < b → b < n → chromOf a < chromOf b)
+    (pop : Nat) (haps : Nat → Nat) (prev : Array (Array Seg))
+    (hpar : pop = 0 → ∀ hom, ∃ segs, prev[haps hom]? = some segs ∧ ParentWF n chromOf segs)
+    {cs : List Copy} (ht : Tiles n 0 0 cs) :
+    ∃ out, execP pop chromOf haps prev cs = .ok out ∧ ParentWF n chromOf out.toArray :=
+  simSample_wf n chromOf hmono pop haps prev hpar ht
+
+/-- **the invariant over generations, unbounded**: whatever the number of generations, the number of samples per
+    generation, the founding populations, the choice of parents and the recombination / homolog tapes (as long as
+    each tape is sorted and each admixed individual's parents exist in the previous generation), the simulation
+    never fails and *every* haplotype of *every* generation is well formed — which is the precondition under
+    which `getSegment_copy` and `exec_mosaic` state exact inheritance for the next generation -/
+theorem every_generation_wf (n : Nat) (chromOf : Nat → Nat) (hmono : ∀ a b, a < b → b < n → chromOf a < chromOf b)
+    (cmEnd : Nat → Int) (gens : List (List SampleTape)) (hok : TapesOK n 0 gens) :
+    ∃ gs, simulateAll n chromOf cmEnd #[] gens = some gs ∧ gs.length = gens.length ∧
+      ∀ g ∈ gs, GenWF n chromOf g :=
+  generations_inv n chromOf hmono cmEnd gens #[] (genWF_empty n chromOf) hok
+
+/-- **no label is ever invented, relabelled to "admixed" or taken from outside the model**: every tract of every
+    generation carries the founding population of some source individual of the simulation -/
+theorem no_label_invented (n : Nat) (chromOf : Nat → Nat) (cmEnd : Nat → Int) (gens : List (List SampleTape))
+    (gs : List (Array (Array Seg))) (h : simulateAll n chromOf cmEnd #[] gens = some gs) :
+    ∀ g ∈ gs, ∀ segs ∈ g.toList, ∀ s ∈ segs.toList,
+      ∃ ts ∈ gens, ∃ t ∈ ts, t.pop ≠ 0 ∧ s.pop = t.pop := by
+  have := generations_labels (fun p => ∃ ts ∈ gens, ∃ t ∈ ts, t.pop ≠ 0 ∧ p = t.pop) n chromOf cmEnd gens #[] gs
+    (by intro s hs; simp at hs) (fun ts hts t ht hp => ⟨ts, hts, t, ht, hp, rfl⟩) h
+  exact this
+
+/-- non-vacuity: a two-generation run (one source founder of each of two populations, then an admixed child with one
+    crossover on the first of two chromosomes) meets `TapesOK`, and the model computes the mosaic -/
+def demoGens : List (List SampleTape) :=
+  [ [⟨1, fun _ => 0, [], 0, [0, 0]⟩, ⟨2, fun _ => 0, [], 0, [0, 0]⟩],
+    [⟨0, fun h => h % 2, [⟨0, 100, 5⟩], 0, [1, 0]⟩] ]
+
+example : TapesOK 2 0 demoGens := by
+  simp only [TapesOK, demoGens, TapeOK, Valid, MAX, List.mem_cons, List.not_mem_nil, or_false, forall_eq_or_imp,
+    forall_eq, List.length_cons, List.length_nil, and_true]
+  refine ⟨⟨⟨by omega, by intro h; cases h⟩, ⟨by omega, by intro h; cases h⟩⟩, ⟨by omega, by omega, by omega, by omega, by omega⟩, ?_⟩
+  intro _ hom
+  omega
+
+/-- … hence the theorem applies to it: the run succeeds, has two generations, all of them well formed -/
+example : ∃ gs, simulateAll 2 (fun i => i + 1) (fun _ => 50) #[] demoGens = some gs ∧ gs.length = 2 ∧
+    ∀ g ∈ gs, GenWF 2 (fun i => i + 1) g :=
+  every_generation_wf 2 (fun i => i + 1) (by intro a b h _; omega) (fun _ => 50) demoGens (by
+    simp only [TapesOK, demoGens, TapeOK, Valid, MAX, List.mem_cons, List.not_mem_nil, or_false, forall_eq_or_imp,
+      forall_eq, List.length_cons, List.length_nil, and_true]
+    refine ⟨⟨⟨by omega, by intro h; cases h⟩, ⟨by omega, by intro h; cases h⟩⟩, ⟨by omega, by omega, by omega, by omega, by omega⟩, ?_⟩
+    intro _ hom
+    omega)
 
 /-- F01 (fixed in /repo): the pre-fix closing label is wrong on an interval spanning a parental breakpoint -/
 theorem getSegmentOld_refuted :
